@@ -82,7 +82,7 @@ def r_unreserve_owned(rep, prog):
         if src is not None:
             rep.check(bool(cls_ok), rule, key + "|class", "with the class of that reservation",
                       "unreserve is given class %s, which is not the class of the reservation being returned" % T.show(cls), t["span"])
-    rep.floor(rule, "Trees::unreserve call sites", n, 4)
+    rep.floor(rule, "Trees::unreserve call sites", n, 2)
     # Trees::unreserve itself: expect on try_update(unreserve_add)
     b = lib.need_body(prog, "llfree::trees::Trees::unreserve")
     tm = T.Terms(b, prog)
